@@ -101,3 +101,158 @@ func AllInts(g geom.Geometry) bool {
 	}
 	return true
 }
+
+// Rebuild reconstructs g applying lineFn to every LineString sequence and
+// ringFn to every polygon ring sequence (nil = identity). Structure, member
+// order, emptiness and coordinate type are preserved.
+func Rebuild(g geom.Geometry, lineFn, ringFn func(geom.Sequence) geom.Sequence) geom.Geometry {
+	id := func(s geom.Sequence) geom.Sequence { return s }
+	if lineFn == nil {
+		lineFn = id
+	}
+	if ringFn == nil {
+		ringFn = id
+	}
+	ct := g.CoordinatesType()
+	poly := func(p geom.Polygon) geom.Polygon {
+		if p.IsEmpty() {
+			return p
+		}
+		rs := p.DumpRings()
+		out := make([]geom.LineString, len(rs))
+		for i, r := range rs {
+			out[i] = geom.NewLineString(ringFn(r.Coordinates()))
+		}
+		return geom.NewPolygon(out)
+	}
+	line := func(l geom.LineString) geom.LineString {
+		if l.IsEmpty() {
+			return l
+		}
+		return geom.NewLineString(lineFn(l.Coordinates()))
+	}
+	switch g.Type() {
+	case geom.TypeLineString:
+		return line(g.MustAsLineString()).AsGeometry()
+	case geom.TypeMultiLineString:
+		ml := g.MustAsMultiLineString()
+		out := make([]geom.LineString, ml.NumLineStrings())
+		for i := range out {
+			out[i] = line(ml.LineStringN(i))
+		}
+		return geom.NewMultiLineString(out).ForceCoordinatesType(ct).AsGeometry()
+	case geom.TypePolygon:
+		return poly(g.MustAsPolygon()).AsGeometry()
+	case geom.TypeMultiPolygon:
+		mp := g.MustAsMultiPolygon()
+		out := make([]geom.Polygon, mp.NumPolygons())
+		for i := range out {
+			out[i] = poly(mp.PolygonN(i))
+		}
+		return geom.NewMultiPolygon(out).ForceCoordinatesType(ct).AsGeometry()
+	case geom.TypeGeometryCollection:
+		gc := g.MustAsGeometryCollection()
+		out := make([]geom.Geometry, gc.NumGeometries())
+		for i := range out {
+			out[i] = Rebuild(gc.GeometryN(i), lineFn, ringFn)
+		}
+		return geom.NewGeometryCollection(out).ForceCoordinatesType(ct).AsGeometry()
+	}
+	return g
+}
+
+// RotateRing returns the closed ring sequence rotated to start at vertex k.
+func RotateRing(s geom.Sequence, k int) geom.Sequence {
+	n := s.Length()
+	if n < 2 {
+		return s
+	}
+	ct := s.CoordinatesType()
+	dim := ct.Dimension()
+	m := n - 1
+	k = ((k % m) + m) % m
+	fs := make([]float64, 0, n*dim)
+	for i := 0; i <= m; i++ {
+		c := s.Get((k + i) % m)
+		fs = append(fs, c.X, c.Y)
+		if ct.Is3D() {
+			fs = append(fs, c.Z)
+		}
+		if ct.IsMeasured() {
+			fs = append(fs, c.M)
+		}
+	}
+	return geom.NewSequence(fs, ct)
+}
+
+// Members lists the direct members of a Multi*/collection (nil otherwise).
+func Members(g geom.Geometry) []geom.Geometry {
+	var out []geom.Geometry
+	switch g.Type() {
+	case geom.TypeMultiPoint:
+		mp := g.MustAsMultiPoint()
+		for i := 0; i < mp.NumPoints(); i++ {
+			out = append(out, mp.PointN(i).AsGeometry())
+		}
+	case geom.TypeMultiLineString:
+		ml := g.MustAsMultiLineString()
+		for i := 0; i < ml.NumLineStrings(); i++ {
+			out = append(out, ml.LineStringN(i).AsGeometry())
+		}
+	case geom.TypeMultiPolygon:
+		mp := g.MustAsMultiPolygon()
+		for i := 0; i < mp.NumPolygons(); i++ {
+			out = append(out, mp.PolygonN(i).AsGeometry())
+		}
+	case geom.TypeGeometryCollection:
+		gc := g.MustAsGeometryCollection()
+		for i := 0; i < gc.NumGeometries(); i++ {
+			out = append(out, gc.GeometryN(i))
+		}
+	default:
+		return nil
+	}
+	return out
+}
+
+// WithMembers rebuilds a Multi*/collection of the same type from members.
+func WithMembers(g geom.Geometry, ms []geom.Geometry) geom.Geometry {
+	ct := g.CoordinatesType()
+	switch g.Type() {
+	case geom.TypeMultiPoint:
+		out := make([]geom.Point, len(ms))
+		for i, m := range ms {
+			out[i] = m.MustAsPoint()
+		}
+		return geom.NewMultiPoint(out).ForceCoordinatesType(ct).AsGeometry()
+	case geom.TypeMultiLineString:
+		out := make([]geom.LineString, len(ms))
+		for i, m := range ms {
+			out[i] = m.MustAsLineString()
+		}
+		return geom.NewMultiLineString(out).ForceCoordinatesType(ct).AsGeometry()
+	case geom.TypeMultiPolygon:
+		out := make([]geom.Polygon, len(ms))
+		for i, m := range ms {
+			out[i] = m.MustAsPolygon()
+		}
+		return geom.NewMultiPolygon(out).ForceCoordinatesType(ct).AsGeometry()
+	case geom.TypeGeometryCollection:
+		return geom.NewGeometryCollection(ms).ForceCoordinatesType(ct).AsGeometry()
+	}
+	return g
+}
+
+// Permute returns g with its direct members permuted.
+func Permute(r *run.Rng, g geom.Geometry) geom.Geometry {
+	ms := Members(g)
+	if len(ms) < 2 {
+		return g
+	}
+	p := r.Perm(len(ms))
+	out := make([]geom.Geometry, len(ms))
+	for i, j := range p {
+		out[i] = ms[j]
+	}
+	return WithMembers(g, out)
+}
